@@ -396,3 +396,184 @@ def install_skel(tr, M):
                 return '\n'.join(out), M.span_hash(s, f)
             tr.item(F, 'skel_' + suffix, mk)
     tr.skel_items = skel_items
+
+
+def install_dm14(tr, M):
+    Ev, Unsupported, SymList, find, span_hash = M.Ev, M.Unsupported, M.SymList, M.find, M.span_hash
+    import copy
+
+    def dm14_items():
+        F = 'Dm14Gen'
+        tq, sq = tr.trees['Dm14Query'], tr.src['Dm14Query']
+        ts, ss = tr.trees['Dm14Server'], tr.src['Dm14Server']
+        C = dict(tr.consts)
+
+        def enum_vals(tree, name):
+            out = {}
+            for c in ast.walk(tree):
+                if isinstance(c, ast.ClassDef) and c.name == name:
+                    for x in c.body:
+                        if isinstance(x, ast.Assign) and isinstance(x.targets[0], ast.Name) and isinstance(x.value, ast.Constant):
+                            out[x.targets[0].id] = x.value.value
+            return out
+        CMD = enum_vals(tq, 'Command')
+        ST = enum_vals(tq, 'Dm15Status')
+        RS = enum_vals(ts, 'ResponseState')
+
+        def dm14_payload():
+            f = find(tq, 'Dm14Query', '_send_dm14')
+            src = ast.unparse(f)
+            for need in ["pointer = self.address.to_bytes(length=4, byteorder='little')", "for octet in pointer:", "data.append(octet)"]:
+                if need not in src:
+                    raise Unsupported('_send_dm14 shape: ' + need)
+            apps = []
+            ev = Ev(env={'key_or_user_level': 'key'}, selfenv={'object_count': 'object_count', 'direct': 'direct', 'command': {'value': 'command'}}, consts=C)
+            for st in f.body:
+                if isinstance(st, ast.Expr) and isinstance(st.value, ast.Call) and ast.unparse(st.value.func) == 'data.append':
+                    apps.append(ev.scalar(st.value.args[0]))
+                elif isinstance(st, ast.For):
+                    apps.append('POINTER')
+            if len(apps) != 5 or apps[2] != 'POINTER':
+                raise Unsupported('_send_dm14 appends %s' % apps)
+            call = f.body[-1].value
+            ev2 = Ev(selfenv={'_pgn': str(C['ParameterGroupNumber.PGN.DM14']), '_dest_address': 'dest'}, consts=C)
+            args = [ev2.scalar(a) for a in call.args[:4]]
+            out = ['Definition dm14_payload (object_count direct command address key : Z) : list Z :=\n  [%s; %s] ++ le_bytes4 address ++ [%s; %s].' % (apps[0], apps[1], apps[3], apps[4]),
+                   'Definition dm14_send_args (dest : Z) : Z * Z * Z * Z :=\n  (%s, %s, %s, %s).' % tuple(args)]
+            return '\n'.join(out), span_hash(sq, f)
+        tr.item(F, 'dm14_payload', dm14_payload)
+
+        def dm14_fields():
+            f = find(ts, 'DM14Server', 'parse_dm14')
+            m = [x for x in f.body if isinstance(x, ast.Match)]
+            if len(m) != 1:
+                raise Unsupported('parse_dm14 match')
+            idle = [c for c in m[0].cases if ast.unparse(c.pattern) == 'ResponseState.IDLE']
+            if not idle:
+                raise Unsupported('IDLE case')
+            got = {}
+            ev = Ev(env={'data': 'data'}, selfenv={'length': 'LEN'}, consts=C)
+            class Sub(ast.NodeTransformer):
+                def visit_Subscript(self_, n):
+                    u = ast.unparse(n)
+                    if u == 'data[self.length - 1]':
+                        return ast.Name(id='D_LAST', ctx=ast.Load())
+                    if u == 'data[self.length - 2]':
+                        return ast.Name(id='D_LAST2', ctx=ast.Load())
+                    return n
+            ev.env.update({'D_LAST': '(byte_at data 7)', 'D_LAST2': '(byte_at data 6)'})
+            for st in idle[0].body:
+                if isinstance(st, ast.Assign) and ast.unparse(st.targets[0]) in ('self.command', 'self.pointer_type', 'self.object_count', 'self.access_level', 'self.direct'):
+                    got[ast.unparse(st.targets[0])[5:]] = ev.scalar(Sub().visit(copy.deepcopy(st.value)))
+                if isinstance(st, ast.Assign) and ast.unparse(st.targets[0]) == 'self.address':
+                    if ast.unparse(st.value) != 'data[2:self.length - 2]':
+                        raise Unsupported('address slice')
+            if sorted(got) != ['access_level', 'command', 'direct', 'object_count', 'pointer_type']:
+                raise Unsupported('parse_dm14 fields %s' % sorted(got))
+            out = ['(* field extraction of an 8-byte DM14 (self.length = 8): address = data[2:6] *)']
+            for k in sorted(got):
+                out.append('Definition dm14_%s (data : list Z) : Z :=\n  %s.' % (k, got[k]))
+            # the busy guard
+            g = [x for x in f.body if isinstance(x, ast.If)]
+            guard = ast.unparse(g[1].test) if len(g) > 1 else ''
+            want = "self.sa is not None and sa != self.sa or (self.address is not None and self.address != data[2:self.length - 2]) or self._busy"
+            if guard != want:
+                raise Unsupported('busy guard: ' + guard)
+            out.append('(* busy guard checked: (sa known and different) or (pointer known and different) or busy flag *)')
+            out.append('Definition dm14_guard_checked : bool := true.')
+            return '\n'.join(out), span_hash(ss, f)
+        tr.item(F, 'dm14_fields', dm14_fields)
+
+        def dm15_builder():
+            f = find(ts, 'DM14Server', '_send_dm15')
+            m = [x for x in f.body if isinstance(x, ast.Match)][0]
+            pre = [x for x in f.body if isinstance(x, ast.Assign)]
+            out = []
+            for case in m.cases:
+                pat = ast.unparse(case.pattern)
+                if not pat.startswith('ResponseState.'):
+                    continue
+                name = pat.split('.')[1]
+                ev = Ev(env={'direct': 'direct', 'status': 'status', 'object_count': 'object_count', 'error': 'error', 'edcp': 'edcp', 'length': '8'},
+                        selfenv={'seed': 'seed', 'command': str(CMD['OPERATION_COMPLETED'])}, consts=C)
+                ev.consts = dict(C)
+                ev.consts['j1939.Dm15Status.OPERATION_FAILED.value'] = ST['OPERATION_FAILED']
+                ev.consts['j1939.Command.OPERATION_COMPLETED.value'] = CMD['OPERATION_COMPLETED']
+                ev.env['data'] = SymList(['255'] * 8)
+
+                class Sub(ast.NodeTransformer):
+                    def visit_BinOp(self_, n):
+                        u = ast.unparse(n)
+                        if u.startswith('length - '):
+                            return ast.Constant(value=8 - int(u.split('- ')[1]))
+                        return self_.generic_visit(n)
+
+                    def visit_Attribute(self_, n):
+                        u = ast.unparse(n)
+                        if u == 'j1939.Dm15Status.OPERATION_FAILED.value':
+                            return ast.Constant(value=ST['OPERATION_FAILED'])
+                        if u == 'j1939.Command.OPERATION_COMPLETED.value':
+                            return ast.Constant(value=CMD['OPERATION_COMPLETED'])
+                        return self_.generic_visit(n)
+                stmts = []
+                for st in pre:
+                    if ast.unparse(st.targets[0]) == 'data[1]':
+                        stmts.append(Sub().visit(copy.deepcopy(st)))
+                for st in case.body:
+                    u = ast.unparse(st)
+                    if u.startswith('self.seed = ') or u.startswith('self.state = '):
+                        continue
+                    if isinstance(st, ast.Raise):
+                        stmts = None
+                        break
+                    st2 = Sub().visit(copy.deepcopy(st))
+                    ast.fix_missing_locations(st2)
+                    if isinstance(st2, ast.Assign) and ast.unparse(st2.targets[0]) == 'self.command':
+                        continue
+                    if isinstance(st2, ast.Assign) and ast.unparse(st2.targets[0]) == 'status':
+                        ev.env['status'] = ev.scalar(st2.value)
+                        continue
+                    stmts.append(st2)
+                if stmts is None:
+                    continue
+                ev.run(stmts)
+                out.append('Definition dm15_%s (direct status object_count seed error edcp : Z) : list Z :=\n  %s.' % (name, ev.env['data'].coq()))
+            if len(out) != 4:
+                raise Unsupported('dm15 cases %d' % len(out))
+            return '\n'.join(out), span_hash(ss, f)
+        tr.item(F, 'dm15_builder', dm15_builder)
+
+        def dm15_fields():
+            f = find(tq, 'Dm14Query', '_parse_dm15')
+            ev = Ev(env={'data': 'data'}, consts=C)
+            got = {}
+            for x in ast.walk(f):
+                if isinstance(x, ast.Assign) and isinstance(x.targets[0], ast.Name) and x.targets[0].id in ('seed', 'status', 'edcp', 'length'):
+                    got[x.targets[0].id] = ev.scalar(x.value)
+                if isinstance(x, ast.Assign) and isinstance(x.targets[0], ast.Name) and x.targets[0].id == 'error':
+                    if ast.unparse(x.value) != "int.from_bytes(data[2:5], byteorder='little', signed=False)":
+                        raise Unsupported('error extraction')
+            if sorted(got) != ['edcp', 'length', 'seed', 'status']:
+                raise Unsupported('dm15 fields %s' % sorted(got))
+            out = ['Definition dm15_%s (data : list Z) : Z :=\n  %s.' % (k, got[k]) for k in sorted(got)]
+            out.append('Definition dm15_error (data : list Z) : Z :=\n  le_value (firstn 3 (skipn 2 data)).')
+            out.append('Definition dm15_status_BUSY : Z := %d.\nDefinition dm15_status_FAILED : Z := %d.\nDefinition dm15_status_PROCEED : Z := %d.' % (ST['BUSY'], ST['OPERATION_FAILED'], ST['PROCEED']))
+            out.append('Definition dm14_cmd_READ : Z := %d.\nDefinition dm14_cmd_WRITE : Z := %d.\nDefinition dm14_cmd_COMPLETED : Z := %d.' % (CMD['READ'], CMD['WRITE'], CMD['OPERATION_COMPLETED']))
+            return '\n'.join(out), span_hash(sq, f)
+        tr.item(F, 'dm15_fields', dm15_fields)
+
+        def dm16_rule():
+            out = []
+            for tree, src, cls, nm in [(tq, sq, 'Dm14Query', 'query'), (ts, ss, 'DM14Server', 'server')]:
+                f = find(tree, cls, '_send_dm16')
+                u = ast.unparse(f)
+                if 'data.append(255 if byte_count > 7 else byte_count)' not in u:
+                    raise Unsupported('%s._send_dm16 length byte' % cls)
+            g = find(tq, 'Dm14Query', '_parse_dm16')
+            if 'length = min(data[0], len(data) - 1)' not in ast.unparse(g) or 'self.mem_data = data[1:length + 1]' not in ast.unparse(g):
+                raise Unsupported('_parse_dm16 shape')
+            out.append('(* DM16 framing checked in both classes: length byte = count if count <= 7 else 0xFF; receiver takes min(data[0], len-1) bytes *)')
+            out.append('Definition dm16_single_frame_max : Z := 7.')
+            return '\n'.join(out), span_hash(sq, g)
+        tr.item(F, 'dm16_rule', dm16_rule)
+    tr.dm14_items = dm14_items
